@@ -129,6 +129,12 @@ def main(argv=None):
   jobs.sort(key=lambda j: -j.get('cost', 1))
   opts = {'max_seconds': 900 if tier == 'quick' else 7200}
   results = []
+  dump_dir = None
+  if tier == 'thorough' or os.environ.get('VERIF_CROSS_SOLVER'):
+    import tempfile, shutil
+    os.makedirs(os.path.join(ROOT, '.work'), exist_ok=True)
+    dump_dir = tempfile.mkdtemp(prefix='q-%s-' % prop, dir=os.path.join(ROOT, '.work'))
+    os.environ['VERIF_DUMP_QUERIES'] = dump_dir
   results = run_jobs(modname, jobs, opts, a)
   # second stage: jobs whose only failures are induction (invariant) checks are re-run in the
   # harness's follow-up mode to find the observable violation the broken invariant leads to
@@ -143,7 +149,43 @@ def main(argv=None):
       if j2:
         jobs = jobs + j2
         results.extend(run_jobs(modname, j2, opts, a))
+  cross = cross_solver(dump_dir) if dump_dir else None
+  if dump_dir:
+    import shutil; shutil.rmtree(dump_dir, ignore_errors=True)
+  CROSS['result'] = cross
   return report(mod, prop, tier, seed, jobs, results, time.perf_counter() - t0, write=not a.no_evidence and not a.jobs, filtered=bool(a.jobs))
+
+
+CROSS = {}
+
+
+def cross_solver(d, limit=150, tlimit_ms=20000):
+  """re-decide a sample of the assertion queries with cvc5 (independent solver); any disagreement makes the run inconclusive"""
+  import subprocess, glob, shutil
+  exe = shutil.which('cvc5')
+  files = sorted(glob.glob(os.path.join(d, '*.smt2')))
+  out = dict(solver='cvc5 binary' if exe else 'cvc5 not found', sampled=0, agree=0, disagree=0, unknown=0, disagreements=[])
+  if not exe: return out
+  step = max(1, len(files) // limit)
+  from concurrent.futures import ThreadPoolExecutor
+  def one(f):
+    want = 'unsat' if f.endswith('-unsat.smt2') else 'sat'
+    try:
+      r = subprocess.run([exe, '--tlimit=%d' % tlimit_ms, f], capture_output=True, text=True, timeout=tlimit_ms / 1000 + 10)
+      lines = r.stdout.split()
+      if '(error' in r.stdout or '(error' in r.stderr: return (f, want, 'error')
+      got = lines[0] if lines else 'unknown'
+    except Exception:
+      got = 'unknown'
+    return (f, want, got)
+  with ThreadPoolExecutor(max_workers=8) as ex:
+    for f, want, got in ex.map(one, files[::step][:limit]):
+      out['sampled'] += 1
+      if got == want: out['agree'] += 1
+      elif got in ('sat', 'unsat'):
+        out['disagree'] += 1; out['disagreements'].append(os.path.basename(f))
+      else: out['unknown'] += 1
+  return out
 
 
 def run_jobs(modname, jobs, opts, a):
@@ -271,6 +313,8 @@ def report(mod, prop, tier, seed, jobs, results, wall, write=True, filtered=Fals
   if induction and not vlines:
     incon.append('induction did not close (invariant not re-established, no observable violation found): ' + induction[0])
   mv = _model_validation(seed)
+  cs = CROSS.get('result')
+  if cs and cs.get('disagree'): incon.append('cross-solver disagreement (z3 vs cvc5) on %s' % cs['disagreements'][:3])
   if not mv.get('ok'): incon.append('environment model validation failed: %s' % (mv,))
   status = 'violation' if vlines else ('inconclusive' if (incon or errors or mismatches) else 'held')
   ev = dict(
@@ -293,7 +337,7 @@ def report(mod, prop, tier, seed, jobs, results, wall, write=True, filtered=Fals
       exhaustive=(status == 'held'), status=status,
       known_findings_reported=sorted(kseen), inconclusive=incon[:10], errors=errors[:5], encoding_mismatches=mismatches[:5],
       solver='z3 %s (python API, incremental)' % _z3v(), repo_head=_repo_head(),
-      model_validation=mv,
+      model_validation=mv, cross_solver=CROSS.get('result'),
     ),
     assumptions=info.get('assumptions', []),
     wall_s=round(wall, 2), violations=len(vlines))
